@@ -168,6 +168,8 @@ class Evaluator:
             key = n["name"]
             if key in self.env:
                 return self.env[key]
+            if n.get("dk") in ("Function", "CXXMethod"):
+                return ("fn", n.get("qn") or key)      # a function designator (decays to a function pointer)
             raise Unknown(key)
         if k in ("MemberExpr", "ArraySubscriptExpr"):
             key = self.lkey(n)
@@ -282,6 +284,13 @@ class Evaluator:
                         keys.append(key)
                         args.append(self.env.get(key) if key is not None else None)
                         continue
+                    if a0 is not None and a0["k"] == "UnaryOperator" and a0.get("op") == "&" and not getattr(self, "heap_mode", False):
+                        tgt = f.strip(a0["c"][0], casts=False)
+                        if tgt is not None and tgt["k"] == "DeclRefExpr":
+                            # the address of a local: the hook receives ("ref", key) and may store through self.env
+                            keys.append(tgt["name"])
+                            args.append(("ref", tgt["name"]))
+                            continue
                     keys.append(None)
                     try:
                         args.append(self.ev(a))
@@ -359,7 +368,7 @@ class Evaluator:
                     self.wraps.extend(sub.wraps)
                 self.trace.extend(sub.trace)
                 r = getattr(sub, "ret", None)
-                if r is None or (isinstance(r, tuple) and r[0] not in ("ptr", "str")):
+                if r is None or (isinstance(r, tuple) and r[0] not in ("ptr", "str", "fn")):
                     raise Unknown("inlined %s: %s" % (nm, r))
                 return r
             self.trace.append((nm, None, n))
